@@ -603,8 +603,17 @@ pub fn run_c15(args: &Args) -> i32 {
   let seed = args.seed;
   let replay_case = crate::replay_index(args);
 
-  // lease probe (75 s): thorough tier, or VERIF_C15_LEASE_PROBE=1
+  // lease probe (75 s): thorough tier, or VERIF_C15_LEASE_PROBE=1, or the replay of a probe witness
+  let probe_replay = args
+    .replay
+    .as_ref()
+    .and_then(|p| std::fs::read_to_string(p).ok())
+    .and_then(|s| serde_json::from_str::<Value>(&s).ok())
+    .map_or(false, |v| v["replay"]["case"]["stream"].as_u64() == Some(STREAM ^ 0xffff));
+  // a probe witness replays the probe only (no value case has that index in the probe's stream)
+  let replay_case = if probe_replay { Some(u64::MAX) } else { replay_case };
   let probe_on = match std::env::var("VERIF_C15_LEASE_PROBE").ok().as_deref() {
+    _ if probe_replay => true,
     Some("1") => true,
     Some("0") => false,
     _ => args.thorough() && replay_case.is_none(),
